@@ -539,6 +539,22 @@ func genC06(r *Rng, tier string) []Case {
 			nl = 13 + rk.Intn(4) // too long: Marshal refuses
 		}
 		name := rk.BytesFrom(nl, nameAlpha)
+		switch rk.Intn(6) { // OEM file names are bytes, not text: high bytes and UTF-8 sequences must survive
+		case 0:
+			if nl >= 2 {
+				k := rk.Intn(nl - 1)
+				name[k], name[k+1] = 0xC3, 0xA9
+			}
+		case 1:
+			if nl >= 3 {
+				k := rk.Intn(nl - 2)
+				name[k], name[k+1], name[k+2] = 0xE2, 0x82, 0xAC
+			}
+		case 2:
+			if nl >= 1 {
+				name[rk.Intn(nl)] = byte(0x80 + rk.Intn(128))
+			}
+		}
 		if rk.Intn(20) == 0 && nl > 0 {
 			name[rk.Intn(nl)] = 0 // outside the domain
 		}
